@@ -619,7 +619,7 @@ impl Driver for C14 {
             if !bad && total_pivots >= 2 {
                 out.nontrivial(hash_str(&spec_json.to_string()));
             }
-            if case == 0 && out.unit < 3 {
+            if out.report.samples.is_empty() && out.unit < 16 {
                 out.sample(json!({"model": lm.to_string(), "runs": runs.len(), "pivots": total_pivots, "outcome": outcome}));
             }
         }
